@@ -1253,15 +1253,21 @@ fn c10_mfi_next_p1() {
 	kani::cover!(true, "returned for period 1");
 }
 
-/// MoneyFlowIndex { period: 0 }: validate() is true, init is Ok, next() must not panic
+/// MoneyFlowIndex { period: 0 }: either rejected (validate() false and init Err) or the accepted
+/// instance survives its first next() (value class of a repaired finding: push into an empty window)
 #[kani::proof]
 #[kani::unwind(7)]
 fn c10_mfi_next_p0() {
 	let cfg = MoneyFlowIndex { period: 0, zone: 0.2 };
-	assert!(cfg.validate(), "MFI period 0 passes validate()");
-	let mut i = cfg.init(&CANDLE).unwrap();
-	kani::cover!(true, "accepted instance reachable");
-	let _ = i.next(&CANDLE);
+	let ok = cfg.validate();
+	match cfg.init(&CANDLE) {
+		Ok(mut i) => {
+			assert!(ok, "init accepts only what validate() accepts");
+			let _ = i.next(&CANDLE);
+		}
+		Err(_) => {}
+	}
+	kani::cover!(true, "end reachable");
 }
 
 /// IchimokuCloud l1 1, l2 2, l3 3, m 1 (complement of c10_ichimoku_next_m0 at its smallest
@@ -1275,13 +1281,19 @@ fn c10_ichimoku_next_m1() {
 	kani::cover!(true, "returned for m 1");
 }
 
-/// IchimokuCloud { m: 0 }: validate() is true, init is Ok, next() must not panic
+/// IchimokuCloud { m: 0 }: either rejected or the accepted instance survives its first next()
+/// (value class of a repaired finding: push into an empty window)
 #[kani::proof]
 #[kani::unwind(7)]
 fn c10_ichimoku_next_m0() {
 	let cfg = IchimokuCloud { l1: 1, l2: 2, l3: 3, m: 0, source: Source::Close };
-	assert!(cfg.validate(), "Ichimoku m 0 passes validate()");
-	let mut i = cfg.init(&CANDLE).unwrap();
-	kani::cover!(true, "accepted instance reachable");
-	let _ = i.next(&CANDLE);
+	let ok = cfg.validate();
+	match cfg.init(&CANDLE) {
+		Ok(mut i) => {
+			assert!(ok, "init accepts only what validate() accepts");
+			let _ = i.next(&CANDLE);
+		}
+		Err(_) => {}
+	}
+	kani::cover!(true, "end reachable");
 }
